@@ -120,10 +120,10 @@ theorem complete_safe (L : Nat) (r : Reader) (sb : SafeB L r) (hip : r.incomplet
 /-- `check_end` -/
 theorem checkEnd_safe (L : Nat) (st : State) (r : Reader) (sb : SafeB L r)
     (hst : r.state = .finished) (h0 : r.bp.pos0 ≤ r.br.buf.length) (ip : RecordPos)
-    (hsc : Scan r.br.buf r.bp ip) : FoundS L (avail L r) st (checkEnd r ip) := by
+    (hsc : Pre r.br.buf r.bp ip) : FoundS L (avail L r) st (checkEnd r ip) := by
   by_cases hq : ip = .qual
   · subst hq
-    obtain ⟨⟨a, b, c⟩, d⟩ := hsc
+    obtain ⟨a, b, c⟩ := hsc
     have a' := nl_some a
     have b' := nl_some b
     have c' := nl_some c
@@ -167,11 +167,11 @@ theorem checkEnd_safe (L : Nat) (st : State) (r : Reader) (sb : SafeB L r)
       | qual => exact absurd rfl hq
       | head => exact ⟨_, getErrorPos_false r 0⟩
       | seq =>
-        have a : nl r.br.buf r.bp.pos0 = some r.bp.seq := hsc.1
+        have a : nl r.br.buf r.bp.pos0 = some r.bp.seq := hsc
         have a' := nl_some a
         exact ⟨_, getErrorPos_true r 1 a'.1 a'.2.1⟩
       | sep =>
-        have a' := nl_some hsc.1.1
+        have a' := nl_some hsc.1
         exact ⟨_, getErrorPos_true r 2 a'.1 a'.2.1⟩
     obtain ⟨ep, hep⟩ := key
     rw [checkEnd_few r ip hq h0 ep hep]
@@ -209,7 +209,7 @@ def muS (L : Nat) (r : Reader) : Nat :=
 
 theorem resumeK_safe (L : Nat) (f : Nat) (ip : RecordPos) (mk : Bool) (r : Reader)
     (ih : ∀ (r : Reader) (ip : RecordPos), SafeB L r → r.bp.pos0 ≤ r.br.buf.length →
-      Scan r.br.buf r.bp ip → muS L r + 1 ≤ f →
+      Pre r.br.buf r.bp ip → muS L r + 1 ≤ f →
       FoundS L (avail L r) r.state (resume f ip mk r) ∧ Ext mk r (resume f ip mk r).1)
     (sb : SafeB L r) (h0 : r.bp.pos0 ≤ r.br.buf.length)
     (hpre : Pre r.br.buf r.bp ip) (hmu : muS L r + 1 ≤ f) :
@@ -217,7 +217,7 @@ theorem resumeK_safe (L : Nat) (f : Nat) (ip : RecordPos) (mk : Bool) (r : Reade
   rcases si_spec r ip h0 hpre with ⟨bp', ip', hp0, hsc, hres⟩ | ⟨bp', hp0, hf4, hres⟩
   · simp only [resumeK, hres]
     have := ih { r with bp := bp', incompletePos := some ip' } ip' (sb.set_bp _ _)
-      (by simpa only [hp0] using h0) hsc hmu
+      (by simpa only [hp0] using h0) hsc.1 hmu
     have hav : avail L { r with bp := bp', incompletePos := some ip' } = avail L r := by
       simp only [avail, hp0]
     rw [hav] at this
@@ -237,7 +237,7 @@ theorem resumeK_safe (L : Nat) (f : Nat) (ip : RecordPos) (mk : Bool) (r : Reade
 
 theorem resume_safe (L : Nat) (mk : Bool) (f : Nat) :
     ∀ (r : Reader) (ip : RecordPos), SafeB L r → r.bp.pos0 ≤ r.br.buf.length →
-      Scan r.br.buf r.bp ip → muS L r + 1 ≤ f →
+      Pre r.br.buf r.bp ip → muS L r + 1 ≤ f →
       FoundS L (avail L r) r.state (resume f ip mk r) ∧ Ext mk r (resume f ip mk r).1 := by
   induction f with
   | zero => intro r ip _ _ _ h; omega
@@ -279,7 +279,7 @@ theorem resume_safe (L : Nat) (mk : Bool) (f : Nat) :
               omega
             have := resumeK_safe L f ip mk { r1 with br := br' } ih sb2
               (by simp only [hbuf, e1, e2, List.length_append]; omega)
-              (by simp only [hbuf, e1, e2]; exact hsc.1.append ext)
+              (by simp only [hbuf, e1, e2]; exact hsc.append ext)
               (by
                 simp only [muS, hcur, hcap, hbuf, List.length_append, e1, e6, e7] at hext ⊢
                 split <;> omega)
@@ -293,7 +293,7 @@ theorem resume_safe (L : Nat) (mk : Bool) (f : Nat) :
           obtain ⟨a, b, c, d, e, f⟩ := sb
           exact ⟨a, b, c, d, e, f⟩
       | false =>
-        obtain ⟨hmr, hpre'⟩ := makeRoom_spec r ip hsc.1
+        obtain ⟨hmr, hpre'⟩ := makeRoom_spec r ip hsc
         generalize hr1 : ({ r with br := r.br.consume r.bp.pos0, bp := shiftBp r.bp ip } : Reader)
           = r1 at hmr
         have hpne : r.bp.pos0 ≠ 0 := by
@@ -342,18 +342,21 @@ theorem resume_safe (L : Nat) (mk : Bool) (f : Nat) :
 
 /-! ## `next` -/
 
+/-- a pending incomplete search: the line starts found so far are in the buffer -/
+def IpOkS (r : Reader) : Prop := ∀ ip, r.incompletePos = some ip → Pre r.br.buf r.bp ip
+
 /-- structural invariant of reader states between API calls -/
 def SafeSt (L : Nat) (r : Reader) : Prop :=
   SafeB L r ∧
   match r.state with
   | .new => r.bp.pos0 ≤ r.br.buf.length ∧ r.incompletePos = none
-  | .positioned => r.bp.pos0 ≤ r.br.buf.length ∧ IpOk r
+  | .positioned => r.bp.pos0 ≤ r.br.buf.length ∧ IpOkS r
   | .parsing => r.bp.pos0 ≤ r.bp.pos1 + 1 ∧ r.bp.pos1 + 1 ≤ r.br.buf.length ∧
       r.incompletePos = none
   | .finished => True
 
 theorem nextCont_safe (L : Nat) (fuel : Nat) (r : Reader) (sb : SafeB L r)
-    (h0 : r.bp.pos0 ≤ r.br.buf.length) (hip : IpOk r) (hfuel : L + 2 ≤ fuel) :
+    (h0 : r.bp.pos0 ≤ r.br.buf.length) (hip : IpOkS r) (hfuel : L + 2 ≤ fuel) :
     FoundS L (avail L r) r.state (nextCont fuel r) := by
   have hmu : ∀ r' : Reader, muS L r' + 1 ≤ fuel := by
     intro r'
@@ -372,7 +375,7 @@ theorem nextCont_safe (L : Nat) (fuel : Nat) (r : Reader) (sb : SafeB L r)
         simp only [nextCont, hipv, Option.isNone_none, if_true, search_eq r hipv, hres, wrapS]
       rw [this]
       have := (resume_safe L true fuel { r with bp := bp', incompletePos := some ip' } ip'
-        (sb.set_bp _ _) (by simpa only [hp0] using h0) hsc (hmu _)).1
+        (sb.set_bp _ _) (by simpa only [hp0] using h0) hsc.1 (hmu _)).1
       have hav : avail L { r with bp := bp', incompletePos := some ip' } = avail L r := by
         simp only [avail, hp0]
       rw [hav] at this
@@ -678,7 +681,7 @@ theorem setLoop_safe (L : Nat) (fuel : Nat) (hfuel : L + 2 ≤ fuel) (n : Option
             intro ip h
             simp only [Option.some.injEq] at h
             subst h
-            exact hsc
+            exact hsc.1
           have hlm1 : lmS L { r with bp := bp', incompletePos := some ip' } ≤ f := by
             have h1 : lmS L r = 2 * avail L r + 2 := by
               unfold lmS; rw [hst, hipv]; simp
@@ -890,15 +893,50 @@ theorem seek_safe (L : Nat) (r : Reader) (hs : SafeSt L r) (toLine toByte : Nat)
   unfold seek
   simp only
   split
-  · -- inside the buffer
+  · -- inside the buffer: a partly filled buffer is completed first
     rename_i hpos
-    refine ⟨resOk_ok _, ⟨?_, ?_⟩⟩
-    · obtain ⟨a, b, c, d, e, f⟩ := sb
-      exact ⟨a, b, c, d, e, f⟩
-    · refine ⟨?_, fun ip h => by cases h⟩
-      have := hpos.2
-      simp only
-      omega
+    have hp2 := hpos.2
+    by_cases hlt : r.br.buf.length < r.br.cap
+    · rw [if_pos hlt]
+      obtain ⟨br', ext, res, hfill, hbuf, hcap, hcur, hinp, hle, hok⟩ := fill_safe L r sb
+      have sb2 := sb.after_fill hbuf hcap hcur hinp hle
+      rw [hfill]
+      cases res with
+      | error k =>
+        refine ⟨resOk_err _, ⟨sb2, ?_⟩⟩
+        cases hst : r.state with
+        | new =>
+          rw [hst] at hs'
+          simp only [hbuf, List.length_append]
+          exact ⟨by omega, hs'.2⟩
+        | positioned =>
+          -- the line starts found so far stay where they are when the buffer is extended
+          rw [hst] at hs'
+          simp only [hbuf, List.length_append]
+          refine ⟨by omega, ?_⟩
+          intro ip hip
+          show Pre br'.buf r.bp ip
+          rw [hbuf]
+          exact (hs'.2 ip hip).append ext
+        | parsing =>
+          rw [hst] at hs'
+          simp only [hbuf, List.length_append]
+          exact ⟨hs'.1, by omega, hs'.2.2⟩
+        | finished => trivial
+      | ok m =>
+        refine ⟨resOk_ok _, ⟨?_, ?_⟩⟩
+        · obtain ⟨a, b, c, d, e, f⟩ := sb2
+          exact ⟨a, b, c, d, e, f⟩
+        · refine ⟨?_, fun ip h => by cases h⟩
+          simp only [hbuf, List.length_append]
+          omega
+    · rw [if_neg hlt]
+      refine ⟨resOk_ok _, ⟨?_, ?_⟩⟩
+      · obtain ⟨a, b, c, d, e, f⟩ := sb
+        exact ⟨a, b, c, d, e, f⟩
+      · refine ⟨?_, fun ip h => by cases h⟩
+        simp only
+        omega
   · -- a real seek
     rcases hsk : r.br.seek toByte with ⟨br1, o⟩
     have hcases := bufSeek_cases r.br toByte
@@ -919,7 +957,7 @@ theorem seek_safe (L : Nat) (r : Reader) (hs : SafeSt L r) (toLine toByte : Nat)
           simp only [hb1]
           exact ⟨hs'.1, fun ip h => by rw [hb1]; exact hs'.2 ip h⟩
         | parsing => rw [hst] at hs'; simp only [hb1]; exact hs'
-        | finished => simp only [hst]
+        | finished => trivial
     · subst ho
       simp only
       have sb1 : SafeB L (seekReset r br1 toLine toByte) := by
